@@ -192,3 +192,18 @@ def run(chk, repo):
     chk.ob('C18.f', 'same-gene fusion merges second-transcript ids into the first gene\'s list instead of overwriting it', fv.where, ok and not dl,
            'var_ids for a fusion is built so that the second gene key can overwrite the first when both transcripts belong to one gene: the fusion id and '
            'first-transcript ids are lost before sources are looked up (peptide assigned to the wrong / empty source)', key=fv.qual + '::intragenic-fusion', fn=fv.qual)
+
+    # ------------------------------------------------------------------ g
+    chk.rule('C18.g', 'R-EFFECT: wildcard map is insert-if-absent (first = highest-priority pattern wins)', 2)
+    wm = repo.func('aa.PeptidePoolSplitter:PeptidePoolSplitter.create_wildcard_map')
+    chk.uses(wm)
+    wcfg = CFG(wm.node)
+    for n in wcfg.nodes:
+        if n.kind == 'stmt' and isinstance(n.ast, ast.Assign) and unparse(n.ast.targets[0]).startswith('wildcard_map['):
+            key_ = unparse(n.ast.targets[0])[len('wildcard_map['):-1]
+            fx = G.facts_at(wcfg, n.id)
+            chk.ob('C18.g', f"'{norm_stmt(n.ast)}' only when the key is absent", repo.loc(wm, n.ast), fx.get(f"{key_} in wildcard_map") is False,
+                   f"'{norm_stmt(n.ast)}' overwrites an existing entry: a lower-priority wildcard pattern takes over combinations already claimed by a higher-priority one",
+                   key=wm.qual + f'::insert-if-absent::{key_}', fn=wm.qual)
+    order_sorted = any(isinstance(l, ast.For) and unparse(l.iter) == 'sorted(self.order, key=lambda x: self.order[x])' for l in walk_no_nested(wm.node))
+    chk.ob('C18.g', 'patterns are expanded in priority order', wm.where, order_sorted, 'wildcard patterns are not expanded in source-order priority', key=wm.qual + '::priority-order', fn=wm.qual)
